@@ -32,11 +32,21 @@ type outcome struct {
 	Refused bool   // answered with exactly 507 / RESOURCE_EXHAUSTED (cache.Error{507} for the direct Get)
 	Status  string // what was seen, e.g. "http 507", "grpc ResourceExhausted", "blob-status NotFound"
 	Note    string
+	// Transport: no answer of the server was observed (HTTP transport error, the client's
+	// own watchdog expired, connection lost): neither an admission nor a refusal; the
+	// history ends inconclusive, it is never a verdict.
+	Transport bool
+}
+
+// transportCode: gRPC codes produced by the client side when its watchdog (lib.Ctx)
+// expires or the connection fails; the same set C15/C16/C18 treat as "unobserved".
+func transportCode(c codes.Code) bool {
+	return c == codes.DeadlineExceeded || c == codes.Unavailable || c == codes.Canceled
 }
 
 func httpOutcome(res lib.HTTPResult) outcome {
 	if res.Err != nil {
-		return outcome{Status: "http transport error", Note: res.Err.Error()}
+		return outcome{Status: "http transport error", Note: res.Err.Error(), Transport: true}
 	}
 	o := outcome{Status: fmt.Sprintf("http %d", res.Status)}
 	o.OK = res.Status == 200
@@ -50,6 +60,7 @@ func httpOutcome(res lib.HTTPResult) outcome {
 func grpcOutcome(err error) outcome {
 	c := lib.Code(err)
 	o := outcome{Status: "grpc " + c.String(), OK: c == codes.OK, Refused: c == codes.ResourceExhausted}
+	o.Transport = err != nil && transportCode(c)
 	if err != nil {
 		o.Note = string(trunc([]byte(err.Error()), 200))
 	}
@@ -101,9 +112,17 @@ func uuid(rng *rand.Rand) string {
 }
 
 // doUpload performs one write of it over the named path.
-func (w *world) doUpload(path string, it *item, chunk int) outcome {
+func (w *world) doUpload(path string, it *item, chunk int) (out outcome) {
 	ctx, cancel := lib.Ctx()
 	defer cancel()
+	defer func() {
+		// the watchdog expired while the call ran: whatever was returned is the harness's
+		// own cancellation (also for the direct cache call and FetchBlob's folded statuses)
+		if ctx.Err() != nil && !out.OK {
+			out.Transport = true
+			out.Note = "lib.Ctx watchdog expired: " + out.Note
+		}
+	}()
 	s := w.srv
 	switch path {
 	case "http-put":
@@ -386,57 +405,76 @@ func (w *world) readItem(it *item) []string {
 		w.r.Count("read." + path + ".FAILED")
 	}
 	okc := func(path string) { w.r.Count("read." + path + ".ok") }
+	// unobserved: no answer of the server was seen (transport error, the client's own
+	// watchdog): not a served read, not a refused one - counted, never judged
+	unobserved := func(path string, herr, gerr error) bool {
+		if herr != nil || (gerr != nil && (transportCode(lib.Code(gerr)) || ctx.Err() != nil)) {
+			w.r.Count("read." + path + ".unobserved-transport")
+			w.unobservedReads++
+			return true
+		}
+		return false
+	}
 	switch it.Kind {
 	case cache.CAS:
 		g := s.HTTPGet("/cas/"+it.Hash, nil)
-		if g.Err != nil || g.Status != 200 || !bytes.Equal(g.Body, it.Data) {
+		if unobserved("http-get", firstErr(g.Err, g.BodyErr), nil) {
+		} else if g.Status != 200 || !bytes.Equal(g.Body, it.Data) {
 			fail("http-get", "status %d err %v, %d bytes", g.Status, g.Err, len(g.Body))
 		} else {
 			okc("http-get")
 		}
 		h := s.HTTPHead("/cas/" + it.Hash)
-		if h.Err != nil || h.Status != 200 {
+		if unobserved("http-head", h.Err, nil) {
+		} else if h.Status != 200 {
 			fail("http-head", "status %d err %v", h.Status, h.Err)
 		} else {
 			okc("http-head")
 		}
 		miss, err := s.FindMissing(ctx, &pb.Digest{Hash: it.Hash, SizeBytes: it.size()})
-		if err != nil || len(miss) != 0 {
+		if unobserved("findmissing", nil, err) {
+		} else if err != nil || len(miss) != 0 {
 			fail("findmissing", "err %v missing %d", err, len(miss))
 		} else {
 			okc("findmissing")
 		}
 		b, err := s.BSRead(ctx, lib.ResBlobs(it.Hash, it.size()), 0, 0)
-		if err != nil || !bytes.Equal(b, it.Data) {
+		if unobserved("bs-read", nil, err) {
+		} else if err != nil || !bytes.Equal(b, it.Data) {
 			fail("bs-read", "err %v, %d bytes", err, len(b))
 		} else {
 			okc("bs-read")
 		}
 		zb, err := s.BSRead(ctx, lib.ResZstd(it.Hash, it.size()), 0, 0)
 		var dec []byte
+		tr := unobserved("bs-read-zstd", nil, err)
 		if err == nil {
 			dec, err = lib.ZstdDecodeKP(zb)
 		}
-		if err != nil || !bytes.Equal(dec, it.Data) {
+		if tr {
+		} else if err != nil || !bytes.Equal(dec, it.Data) {
 			fail("bs-read-zstd", "err %v, %d bytes", err, len(dec))
 		} else {
 			okc("bs-read-zstd")
 		}
 		resp, err := s.CAS.BatchReadBlobs(ctx, &pb.BatchReadBlobsRequest{Digests: []*pb.Digest{{Hash: it.Hash, SizeBytes: it.size()}}})
-		if err != nil || len(resp.Responses) != 1 || resp.Responses[0].Status.GetCode() != 0 || !bytes.Equal(resp.Responses[0].Data, it.Data) {
+		if unobserved("batch-read", nil, err) {
+		} else if err != nil || len(resp.Responses) != 1 || resp.Responses[0].Status.GetCode() != 0 || !bytes.Equal(resp.Responses[0].Data, it.Data) {
 			fail("batch-read", "err %v", err)
 		} else {
 			okc("batch-read")
 		}
 	case cache.RAW:
 		g := s.HTTPDo("GET", s.RawURL+"/ac/"+it.Hash, nil, nil)
-		if g.Err != nil || g.Status != 200 || !bytes.Equal(g.Body, it.Data) {
+		if unobserved("http-get-raw", firstErr(g.Err, g.BodyErr), nil) {
+		} else if g.Status != 200 || !bytes.Equal(g.Body, it.Data) {
 			fail("http-get-raw", "status %d err %v, %d bytes", g.Status, g.Err, len(g.Body))
 		} else {
 			okc("http-get-raw")
 		}
 		h := s.HTTPDo("HEAD", s.RawURL+"/ac/"+it.Hash, nil, nil)
-		if h.Err != nil || h.Status != 200 {
+		if unobserved("http-head-raw", h.Err, nil) {
+		} else if h.Status != 200 {
 			fail("http-head-raw", "status %d err %v", h.Status, h.Err)
 		} else {
 			okc("http-head-raw")
@@ -449,25 +487,37 @@ func (w *world) readItem(it *item) []string {
 		want := &pb.ActionResult{}
 		_ = proto.Unmarshal(it.Data, want)
 		got, err := s.AC.GetActionResult(ctx, &pb.GetActionResultRequest{ActionDigest: &pb.Digest{Hash: it.Hash, SizeBytes: 1}})
-		if err != nil || !proto.Equal(got, want) {
+		if unobserved("get-action-result", nil, err) {
+		} else if err != nil || !proto.Equal(got, want) {
 			fail("get-action-result", "err %v", err)
 		} else {
 			okc("get-action-result")
 		}
 		g := s.HTTPGet("/ac/"+it.Hash, nil)
-		if g.Err != nil || g.Status != 200 || !bytes.Equal(g.Body, it.Data) {
+		if unobserved("http-get-ac", firstErr(g.Err, g.BodyErr), nil) {
+		} else if g.Status != 200 || !bytes.Equal(g.Body, it.Data) {
 			fail("http-get-ac", "status %d err %v, %d bytes", g.Status, g.Err, len(g.Body))
 		} else {
 			okc("http-get-ac")
 		}
 		h := s.HTTPHead("/ac/" + it.Hash)
-		if h.Err != nil || h.Status != 200 {
+		if unobserved("http-head-ac", h.Err, nil) {
+		} else if h.Status != 200 {
 			fail("http-head-ac", "status %d err %v", h.Status, h.Err)
 		} else {
 			okc("http-head-ac")
 		}
 	}
 	return bad
+}
+
+func firstErr(errs ...error) error {
+	for _, e := range errs {
+		if e != nil {
+			return e
+		}
+	}
+	return nil
 }
 
 // ---------------------------------------------------------------------------
